@@ -72,10 +72,11 @@ def check_roundtrip(sh, fa, case, parsed, prop="C01"):
             return None
     else:
         schema_arg = copy.deepcopy(js)
-    st, data = guard(write_value, fa, schema_arg, datum)
+    tuples = not case.get("dtn")
+    st, data = guard(write_value, fa, schema_arg, datum, **({} if tuples else {"disable_tuple_notation": True}))
     if st == "exc":
         sh.violation("writer-raised", "schemaless_writer raised %s on a conforming datum" % exc_name(data),
-                     {"schema": js, "datum": datum, "parsed": parsed})
+                     {"schema": js, "datum": datum, "parsed": parsed, "dtn": not tuples})
         return None
     try:
         tree = RB.decode_all(node, data)
@@ -85,9 +86,9 @@ def check_roundtrip(sh, fa, case, parsed, prop="C01"):
             sh.violation("not-spec-encoding", "independent decoder rejects the bytes: %s" % e,
                          {"schema": js, "datum": datum, "bytes": data})
             return None
-        tree = RC.from_datum(node, datum)
+        tree = RC.from_datum(node, datum, tuples)
         sh.count("ref_decode_failed_fallback")
-    expected = RC.normalise(node, datum, tree)
+    expected = RC.normalise(node, datum, tree, tuples)
     return data, tree, expected, schema_arg
 
 
@@ -105,7 +106,7 @@ def one_case(sh, fa, case, parsed):
         tree = None
     stream = ReadOnlyStream(data + SENTINEL)
     st, got = guard(read_one, fa, stream, schema_arg)
-    info = {"schema": js, "datum": datum, "parsed": parsed}
+    info = {"schema": js, "datum": datum, "parsed": parsed, "dtn": bool(case.get("dtn"))}
     if st == "exc":
         sh.violation("reader-raised", "schemaless_reader raised %s on the writer's own bytes %s"
                      % (exc_name(got), data[:60].hex()), info)
@@ -116,7 +117,7 @@ def one_case(sh, fa, case, parsed):
     # the normalisation is judged under the branches the bytes select (A1); those branches must
     # at least be ones the datum conforms to, otherwise "equal after normalisation" is vacuous
     from .c02 import branch_conformance
-    bad = branch_conformance(sh, node, datum, tree) if tree is not None else None
+    bad = branch_conformance(sh, node, datum, tree, (), not case.get("dtn")) if tree is not None else None
     if bad:
         sh.violation("written-under-nonconforming-branch", bad, info)
         return None
@@ -148,6 +149,11 @@ def run_shard(spec):
     while i < spec["n"] + nb and not (i >= nb and sh.out_of_time()):
         if i < nb:
             case = cases[i]
+        elif rng.random() < 0.15:
+            # tuple notation switched off: tuples are sequences everywhere, hints are not generated
+            case = gen_case(rng, SOPTS, dict(DOPTS, hints=0.0, no_tuples=True))
+            case["dtn"] = True
+            sh.count("tuple_notation_off_cases")
         else:
             case = gen_case(rng, SOPTS, DOPTS)
         i += 1
@@ -205,7 +211,7 @@ def replay(sh, fa, rep):
     items = info["stream"] if "stream" in info else [info]
     for it in items:
         node, env = RS.build(it["schema"])
-        case = {"schema": it["schema"], "node": node, "env": env, "datum": it["datum"], "features": set()}
+        case = {"schema": it["schema"], "node": node, "env": env, "datum": it["datum"], "features": set(), "dtn": it.get("dtn", False)}
         for parsed in ([it["parsed"]] if "parsed" in it else [False, True]):
             sh.case(None)
             one_case(sh, fa, case, parsed)
